@@ -494,6 +494,11 @@ func c05FateScenarios(c *gen.Ctx) []any {
 	}
 	var ins []any
 	add := func(in c05In) {
+		if in.TimeoutS == 0 {
+			// far below the time-out of the whole harness, far above what the slowest legitimate course
+			// takes (a client that died silently is noticed by the 20 s response time-out)
+			in.TimeoutS = 45
+		}
 		ins = append(ins, in)
 		c.E.Count("fate:" + in.Behaviour + ":" + in.ClientStopHow)
 	}
@@ -526,7 +531,7 @@ func c05FateScenarios(c *gen.Ctx) []any {
 	// pipe.  That is slow, not wrong; the scenarios here make the runner write again.)
 	gone := func(five bool, ms int, delays []int, how string, after int) c05In {
 		in := stop(five, ms, delays, how, after)
-		in.TimeoutS = 45
+		in.TimeoutS = 30
 		return in
 	}
 	add(gone(false, 2, []int{300, 1000}, "exit0", 0))
@@ -535,7 +540,9 @@ func c05FateScenarios(c *gen.Ctx) []any {
 	add(gone(true, 2, []int{200, 900}, "exit3", 6))
 	if c.Thorough() {
 		// whether a write meets the dead process here is a race: if none does, the scenario takes 20 s
-		add(gone(false, 2, []int{300, 1200}, gen.Pick(r, []string{"readkill", "readexit3", "readexit0"}), 2))
+		g := gone(false, 2, []int{300, 1200}, gen.Pick(r, []string{"readkill", "readexit3", "readexit0"}), 2)
+		g.TimeoutS = 70
+		add(g)
 	}
 	// servers that read their input to its end before they answer, through the whole Run
 	eof := base(true, 2)
@@ -556,6 +563,7 @@ func c05FateScenarios(c *gen.Ctx) []any {
 		in := stop(r.Bool(), ms, [][]int{{300, 2000}, {2000, 300}, {100, 900, 1800}, {0, 1500}, {700}}[r.Intn(5)],
 			gen.Pick(r, []string{"unknown", "unknown", "garbage", "dup", "exit0", "exit3", "readexit0", "readexit3", "readkill"}), r.Range(0, 10))
 		in.LatencyMs = gen.Pick(r, []int{0, 0, 2, 10})
+		in.TimeoutS = 70
 		in.Verbose = r.Bool()
 		if in.ClientStopHow == "dup" && in.ClientStopAfter == 0 {
 			in.ClientStopAfter = 1
@@ -688,16 +696,25 @@ func runC05(c *gen.Ctx) error {
 	}
 	// process fates (op "fate"): the handshake with servers that read their input to its end, and a
 	// client that breaks down mid-run while several batches are in flight whose servers need different
-	// times to stop — when Run returns, no server it started may still be running
-	c.DoParallel("shared", c05SharedScenarios(c), 6)
-	c.DoParallel("handshake", c05HandshakeScenarios(c), 4)
-	fates := c05FateScenarios(c)
-	workers := 6
-	c.DoParallel("fate", fates, workers)
-	c.DoParallel("run", ins, 4)
+	// times to stop — when Run returns, no server it started may still be running.
 	// a real server process that ignores SIGTERM must still be stopped (killed) before the batch
-	// returns its --max-servers slot
-	c.DoParallel("osserver", oscmdServerScenarios(c)[2:], 2)
-	c.DoParallel("fill", c05FillScenarios(), 4)
+	// returns its --max-servers slot (osserver).
+	// All operations run side by side (the scenarios that may end in a watchdog first): what a hang
+	// in the code under test costs is one watchdog, not one per group.
+	var opsOf []string
+	var all []any
+	group := func(op string, xs []any) {
+		for _, x := range xs {
+			opsOf = append(opsOf, op)
+			all = append(all, x)
+		}
+	}
+	group("fate", c05FateScenarios(c))
+	group("shared", c05SharedScenarios(c))
+	group("osserver", oscmdServerScenarios(c)[2:])
+	group("handshake", c05HandshakeScenarios(c))
+	group("run", ins)
+	group("fill", c05FillScenarios())
+	c.DoParallelOps(opsOf, all, 8)
 	return nil
 }
